@@ -598,7 +598,10 @@ def run_contract(contract, xcheck=True, goal_timeout_ms=8000):
                       info=f'raises {exc.cls.__name__} {exc.args!r}')
     # cross-check this path against CPython
     if xcheck and model0 is not None:
-      _xcheck(contract, rep, model0, outcome, path)
+      if path.notes.get('opaque_decision'):
+        rep.xcheck_skipped += 1      # the path depends on an opaque comparison
+      else:
+        _xcheck(contract, rep, model0, outcome, path)
 
   try:
     ex.explore(body)
